@@ -191,6 +191,10 @@ def _apply_unit(repo: str, header: str, body_lines: List[str], tpl_name: str) ->
             elif d.startswith("spec:"):
                 cur = ("spec", "", [])
                 sections.append(cur)
+            elif d.startswith("after-loop"):
+                k = d[len("after-loop"):].strip().rstrip(":").strip()
+                cur = ("after-loop", k, [])
+                sections.append(cur)
             elif d.startswith("loop"):
                 k = d[4:].strip().rstrip(":").strip()
                 cur = ("loop", k, [])
@@ -327,6 +331,15 @@ def _apply_unit(repo: str, header: str, body_lines: List[str], tpl_name: str) ->
             if len(heads) < k:
                 raise ExtractError("%s: loop %d not found in %s (has %d loops)" % (uid, k, info.item, len(heads)))
             inserts.append((heads[k - 1][0], "\n" + txt + "\n"))
+        elif kind == "after-loop":
+            heads = rt.loop_headers(body)
+            k = int(arg)
+            if len(heads) < k:
+                raise ExtractError("%s: loop %d not found in %s (has %d loops)" % (uid, k, info.item, len(heads)))
+            toks_b = rt.tokenize(body)
+            bi = next(i for i, t in enumerate(toks_b) if t.start == heads[k - 1][0])
+            ci = rt.match_close(toks_b, bi)
+            inserts.append((toks_b[ci].end, "\n" + txt + "\n"))
         elif kind in ("before", "after"):
             k_s, pref = arg.split("\x00")
             k = int(k_s)
@@ -416,6 +429,21 @@ def assemble(repo: str, template_path: str) -> Assembled:
     name = os.path.basename(template_path)
     while i < len(tpl):
         ln = tpl[i]
+        if ln.strip().startswith("//@include"):
+            inc = ln.strip().split(None, 1)[1].strip()
+            ipath = os.path.join(os.path.dirname(template_path), inc)
+            try:
+                sub = assemble(repo, ipath)
+            except OSError as e:
+                raise ExtractError("cannot include %s: %s" % (inc, e))
+            base = len(out)
+            for u in sub.units:
+                u.asm_start += base
+                u.asm_end += base
+                units.append(u)
+            out.extend(sub.text.split("\n"))
+            i += 1
+            continue
         if ln.strip().startswith("//@item"):
             text, info = _extract_item(repo, ln, name)
             info.asm_start = len(out) + 1
